@@ -348,6 +348,52 @@ def _fold_none_tests(body):
     return out
 
 
+_PURE_CALLS = {"range", "len", "abs", "min", "max", "int", "float", "list", "tuple", "sum", "sorted", "enumerate", "zip", "round", "bool", "str"}
+
+
+def _pure_value_term(fn, kind):
+    """the value of a helper that only computes (locals, loops, appends to its own lists, pure builtins) as one closed
+    term over its parameters, or None: such a call can be replaced by the term wherever it stands"""
+    params = [a.arg for a in fn.args.args]
+    if kind == "instance":
+        # must not touch self at all
+        if params and any(isinstance(x, ast.Name) and x.id == params[0] for s_ in fn.body for x in ast.walk(s_)):
+            return None
+    local = {x.id for x in ast.walk(fn) if isinstance(x, ast.Name) and isinstance(x.ctx, ast.Store)}
+    for x in ast.walk(fn):
+        if isinstance(x, (ast.Attribute, ast.Subscript)) and not isinstance(x.ctx, ast.Load):
+            r = x
+            while isinstance(r, (ast.Attribute, ast.Subscript)):
+                r = r.value
+            if not (isinstance(r, ast.Name) and r.id in local and r.id not in params):
+                return None
+        if isinstance(x, ast.Call):
+            if isinstance(x.func, ast.Name) and x.func.id in _PURE_CALLS:
+                continue
+            if isinstance(x.func, ast.Attribute) and isinstance(x.func.value, ast.Name) and x.func.value.id in local and x.func.value.id not in params \
+                    and x.func.attr in ("append", "extend"):
+                continue
+            return None
+        if isinstance(x, (ast.Global, ast.Nonlocal, ast.Yield, ast.YieldFrom, ast.Await, ast.Raise, ast.Try, ast.With, ast.While, ast.Lambda)):
+            return None
+    try:
+        from .terms import value_term
+        t = value_term(fn)
+    except Exception:
+        return None
+    if t is None:
+        return None
+    bound = set()
+    for x in ast.walk(t):
+        if isinstance(x, (ast.ListComp, ast.SetComp, ast.DictComp, ast.GeneratorExp)):
+            for g in x.generators:
+                bound |= {m.id for m in ast.walk(g.target) if isinstance(m, ast.Name)}
+    free = {x.id for x in ast.walk(t) if isinstance(x, ast.Name)} - bound - set(params) - _PURE_CALLS
+    if free:
+        return None
+    return t
+
+
 PKG = {}        # module name -> raw tree of every module of the package (set by the loader): helpers defined in a sibling module
 
 
@@ -515,14 +561,25 @@ class Inliner:
                     return n
                 fn, kind, recv = h
                 body = [s for s in fn.body if not (isinstance(s, ast.Expr) and isinstance(s.value, ast.Constant))]
-                if len(body) != 1 or not isinstance(body[0], ast.Return) or body[0].value is None:
+                value = None
+                if len(body) == 1 and isinstance(body[0], ast.Return) and body[0].value is not None:
+                    value = body[0].value
+                else:
+                    value = _pure_value_term(fn, kind)
+                if value is None:
                     return n
                 if not all(_simple_arg(a) for a in list(n.args) + [k.value for k in n.keywords]):
                     return n
                 b = _bind(fn, kind, n, recv)
                 if b is None or b[0]:
                     return n
-                out = _Rename(b[1], b[2], b[3]).visit(copy.deepcopy(body[0].value))
+                if value is not (body[0].value if len(body) == 1 and isinstance(body[0], ast.Return) else None):
+                    # a term over the parameters only: nothing but the parameters is to be renamed
+                    out = _Rename({}, {k_: v_ for k_, v_ in b[2].items()}, b[3]).visit(copy.deepcopy(value))
+                    if b[1] and any(isinstance(x, ast.Name) and x.id in b[1] and x.id in [a.arg for a in fn.args.args] for x in ast.walk(value)):
+                        return n
+                else:
+                    out = _Rename(b[1], b[2], b[3]).visit(copy.deepcopy(value))
                 ast.copy_location(out, n)
                 for x in ast.walk(out):
                     if isinstance(x, ast.expr) and not hasattr(x, "lineno"):
